@@ -750,12 +750,14 @@ def _e_dyad_power(a, b, backend):
     # Check if result is integer using vectorized operations
     r_val = backend.detach_if_needed(r)
     if is_list(r_val):
-        # Vectorized check: trunc(r) == r for all elements
-        trunc_r = numpy.trunc(r_val) if isinstance(r_val, numpy.ndarray) else r_val.trunc()
-        br = bool((trunc_r == r_val).all())
+        # Vectorized check: trunc(r) == r for all elements (an infinite result is not an integer)
+        if isinstance(r_val, numpy.ndarray):
+            br = bool(numpy.isfinite(r_val).all() and (numpy.trunc(r_val) == r_val).all())
+        else:
+            br = bool(r_val.isfinite().all() and (r_val.trunc() == r_val).all())
     else:
         val = float(r_val) if hasattr(r_val, 'item') else r_val
-        br = numpy.trunc(val) == val
+        br = bool(numpy.isfinite(val)) and numpy.trunc(val) == val
     if br:
         return backend.to_int_array(r)
     return r
